@@ -187,7 +187,7 @@ func ApplyPerturbation(p *synth.Project, id string, r *rand.Rand) *Perturbation 
 		m.Params[i].AnnName = "q"
 		m.Params[i].GoName = "qq"
 	case "PE1", "PE2":
-		pt.Rule, pt.Expect, pt.Listed = "the last result is a struct that does not embed error", "reject", false
+		pt.Rule, pt.Expect, pt.Listed = "the last result is a struct that does not embed error", "reject", true
 		if p.Struct(c.Pkg, "TargetBad") == nil {
 			p.Structs = append(p.Structs, synth.Struct{Name: "TargetBad", Pkg: c.Pkg, Fields: []synth.Field{{GoName: "Why", Type: synth.Prim("string"), JSONName: "why"}}})
 		}
@@ -212,7 +212,7 @@ func ApplyPerturbation(p *synth.Project, id string, r *rand.Rand) *Perturbation 
 		}
 	case "PE3":
 		// the mirror image of PE2: Target is fine, the offender lives in a controller of another package
-		pt.Rule, pt.Expect, pt.Listed = "a controller of another package returns a struct that does not embed error while Target returns its own valid error type of the same name", "reject", false
+		pt.Rule, pt.Expect, pt.Listed = "a controller of another package returns a struct that does not embed error while Target returns its own valid error type of the same name", "reject", true
 		applied := false
 		for ci := 1; ci < len(p.Controllers); ci++ {
 			c2 := &p.Controllers[ci]
